@@ -10,6 +10,7 @@ package vsched
 
 import (
 	"fmt"
+	"strings"
 	"sync"
 	"time"
 )
@@ -25,6 +26,7 @@ type thread struct {
 	alias   int
 	obj     any
 	daemon  bool // does not keep Run alive (harness pseudo-threads: environment events)
+	waitLock any // the lock the thread is parked in front of (Lock)
 }
 
 // Step is one element of the lock-step trace.
@@ -59,6 +61,32 @@ type Sched struct {
 	// LastSelect is the branch taken by the most recent SelectClosedOrTimer (0 = channel closed, 1 = timer).
 	LastSelect int
 	released   bool
+	// holders: who holds each controlled lock and where it was taken (deadlock reports)
+	holders map[any]LockHolder
+	// LockOps: every acquisition / release of a controlled lock by a controlled thread, in order
+	LockOps []LockOp
+}
+
+// LockHolder says which thread holds a controlled lock and the label of the Lock call that acquired it.
+type LockHolder struct {
+	Tid   int
+	Label string
+}
+
+// LockOp is one acquisition (Acquire) or release of a controlled lock; Name is the lock expression of the
+// acquiring call's label ("fn:Lock:s.statusLock" -> "s.statusLock").
+type LockOp struct {
+	Tid     int
+	Acquire bool
+	Name    string
+	Label   string
+}
+
+func lockName(label string) string {
+	if i := strings.LastIndex(label, ":"); i >= 0 {
+		return label[i+1:]
+	}
+	return label
 }
 
 // Choice records one scheduling decision (for DFS exploration).
@@ -158,16 +186,76 @@ func Lock(m sync.Locker, label string) {
 		return
 	}
 	s := cur
+	t := s.current
+	t.waitLock = m
 	s.park(label, func() bool { return !s.locks[m] })
+	t.waitLock = nil
 	s.locks[m] = true
+	if s.holders == nil {
+		s.holders = map[any]LockHolder{}
+	}
+	s.holders[m] = LockHolder{Tid: t.id, Label: label}
+	s.LockOps = append(s.LockOps, LockOp{Tid: t.id, Acquire: true, Name: lockName(label), Label: label})
 	m.Lock()
 }
 
 func Unlock(m sync.Locker) {
-	if cur != nil {
-		delete(cur.locks, m)
+	if s := cur; s != nil {
+		delete(s.locks, m)
+		if h, ok := s.holders[m]; ok {
+			if s.current != nil {
+				s.LockOps = append(s.LockOps, LockOp{Tid: s.current.id, Acquire: false, Name: lockName(h.Label), Label: h.Label})
+			}
+			delete(s.holders, m)
+		}
 	}
 	m.Unlock()
+}
+
+// LockWaits describes, for every unfinished thread parked in front of a controlled lock, which lock it wants,
+// who holds it and where the holder took it; Cycle is true when following "waits for the holder of" from some
+// thread comes back to it (a lock-order deadlock). Call it after Run.
+func (s *Sched) LockWaits() (desc []string, cycle bool) {
+	waitsFor := map[int]int{}
+	for _, t := range s.threads {
+		if t.done || t.virtual || t.waitLock == nil {
+			continue
+		}
+		h, held := s.holders[t.waitLock]
+		if !held {
+			desc = append(desc, fmt.Sprintf("thread %d is parked at %q (the lock is free)", t.id, t.label))
+			continue
+		}
+		waitsFor[t.id] = h.Tid
+		var own []string
+		for m, hh := range s.holders {
+			if hh.Tid == t.id && m != t.waitLock {
+				own = append(own, fmt.Sprintf("%s (taken at %q)", lockName(hh.Label), hh.Label))
+			}
+		}
+		holding := "holding nothing"
+		if len(own) > 0 {
+			holding = "holding " + strings.Join(own, ", ")
+		}
+		desc = append(desc, fmt.Sprintf("thread %d waits at %q for %s, %s; %s is held by thread %d since %q",
+			t.id, t.label, lockName(t.label), holding, lockName(t.label), h.Tid, h.Label))
+	}
+	for start := range waitsFor {
+		cur, n := start, 0
+		for n <= len(waitsFor) {
+			next, ok := waitsFor[cur]
+			if !ok {
+				break
+			}
+			if next == start {
+				cycle = true
+				break
+			}
+			cur = next
+			n++
+		}
+	}
+	return
 }
 
 // RecvClosed replaces `<-ch` on a channel that is only ever closed (done channels).
